@@ -32,7 +32,7 @@ def namedFields (name : Bytes) (fs : List Field) : List Field := fs.filter (isHd
 
 /-- the listener's correlation header name does not collide with a forwarding header -/
 def IdNameOK (c : Ctx) : Prop :=
-  ∀ n ∈ [sXFFor, sForwarded, sXRealIp, sXFProto, sXFPort, sXRequestId, sConnection], eqNoCase c.sozuIdHeader n = false
+  ∀ n ∈ [sXFFor, sForwarded, sXRealIp, sXFProto, sXFPort, sXRequestId, sConnection, sUserAgent], eqNoCase c.sozuIdHeader n = false
 
 theorem eqNoCase_refl (k : Bytes) : eqNoCase k k = true := by simp [eqNoCase]
 
@@ -52,26 +52,50 @@ theorem owned_of_named {c : Ctx} {n : Bytes} (hn : n ∈ ownedNames c) {f : Fiel
 
 -- ------------------------------------------------------------ the walk --
 
-theorem e2e_walkRequest (c : Ctx) (fs : List Field) : e2e c (walkRequest c fs) = e2e c fs := by
-  induction fs with
+theorem e2e_walkRequest (c : Ctx) (seen : Bool) (fs : List Field) : e2e c (walkRequest c seen fs) = e2e c fs := by
+  induction fs generalizing seen with
   | nil => rfl
   | cons f tl ih =>
     cases f with
-    | cookies => simp [walkRequest, e2e, List.filter_cons, owned] at ih ⊢; exact ih
+    | cookies =>
+      have := ih seen
+      simp only [walkRequest, e2e, List.filter_cons, owned] at this ⊢
+      simp [this]
     | hdr k v =>
+      have keep : ∀ sn, e2e c (Field.hdr k v :: walkRequest c sn tl) = e2e c (Field.hdr k v :: tl) := by
+        intro sn
+        have := ih sn
+        simp only [e2e, List.filter_cons] at this ⊢
+        rw [this]
+      have drop : ∀ sn, owned c (.hdr k v) = true → e2e c (walkRequest c sn tl) = e2e c (Field.hdr k v :: tl) := by
+        intro sn ho
+        have := ih sn
+        simp only [e2e, List.filter_cons, ho, Bool.not_true, Bool.false_eq_true, ↓reduceIte] at this ⊢
+        exact this
       simp only [walkRequest]
       split
       · next hk =>
         have ho : ∀ v', owned c (.hdr k v') = true := fun v' =>
           owned_of_named (n := sConnection) (by simp [ownedNames]) (by simpa [isHdrNamed] using hk)
-        split <;> simp [e2e, List.filter_cons, ho] at ih ⊢ <;> exact ih
+        have := ih seen
+        split <;> simp [e2e, List.filter_cons, ho] at this ⊢ <;> exact this
       · split
-        · next hk =>
-          have ho : owned c (.hdr k v) = true :=
-            owned_of_named (n := sXRealIp) (by simp [ownedNames]) (by simp only [Bool.and_eq_true] at hk; simpa [isHdrNamed] using hk.1)
-          simp [e2e, List.filter_cons, ho] at ih ⊢; exact ih
-        · simp only [e2e, List.filter_cons] at ih ⊢
-          rw [ih]
+        · exact keep seen
+        · split
+          · next hk =>
+            simp only [Bool.and_eq_true] at hk
+            exact drop seen (owned_of_named (n := sXRealIp) (by simp [ownedNames]) (by simpa [isHdrNamed] using hk.1))
+          · split
+            · next hk =>
+              have ho : owned c (.hdr k v) = true :=
+                owned_of_named (n := sXRequestId) (by simp [ownedNames]) (by simpa [isHdrNamed] using hk)
+              split
+              · exact drop true ho
+              · exact keep true
+            · split
+              · next hk =>
+                exact drop seen (owned_of_named (n := c.sozuIdHeader) (by simp [ownedNames]) (by simpa [isHdrNamed] using hk))
+              · exact keep seen
 
 theorem e2e_modifyLast (c : Ctx) (n suf : Bytes) (hn : n ∈ ownedNames c) (fs : List Field) :
     e2e c (modifyLast (isHdrNamed n) (appendVal suf) fs).1 = e2e c fs := by
@@ -212,28 +236,5 @@ theorem lastValue_none_of_not_named (n : Bytes) (fs : List Field) (h : ∀ f ∈
     cases f with
     | cookies => simp [lastValue, this]
     | hdr k v => simp only [isHdrNamed] at hf; simp [lastValue, this, hf]
-
-theorem walkRequest_lastValue (c : Ctx) (n : Bytes) (h1 : lower n ≠ lower sConnection) (h2 : lower n ≠ lower sXRealIp)
-    (fs : List Field) : lastValue n (walkRequest c fs) = lastValue n fs := by
-  induction fs with
-  | nil => rfl
-  | cons f tl ih =>
-    cases f with
-    | cookies => simp [walkRequest, lastValue, ih]
-    | hdr k v =>
-      simp only [walkRequest]
-      split
-      · next hk =>
-        have : eqNoCase k n = false := by
-          rw [eqNoCase_lower_const hk n]; simp only [beq_eq_false_iff_ne, ne_eq]; exact fun e => h1 e.symm
-        split <;> simp [lastValue, ih, this]
-      · split
-        · next hk =>
-          simp only [Bool.and_eq_true] at hk
-          have : eqNoCase k n = false := by
-            rw [eqNoCase_lower_const hk.1 n]; simp only [beq_eq_false_iff_ne, ne_eq]; exact fun e => h2 e.symm
-          simp only [lastValue, ih, this]
-          cases lastValue n tl <;> simp
-        · simp [lastValue, ih]
 
 end Sozu.Headers
